@@ -458,6 +458,10 @@ func (c *checker) runHistory(i int) {
 		}
 	}
 	res := env.Run(h)
+	if res.Inconclusive != "" {
+		r.Inconclusive(fmt.Sprintf("history %d: %s", h.Index, res.Inconclusive))
+		return
+	}
 	if env.ServePanic != "" {
 		r.Violation(fam+":session:panic-escaped-serve-loop", "a panic escaped Server.Serve: "+strings.SplitN(env.ServePanic, "\n", 2)[0], map[string]any{"history": h, "otel": oc, "stack": env.ServePanic})
 		return
